@@ -295,3 +295,64 @@ def instantiate(structure, fill_scheme=0, star_len=6, star_text=None, forbid=(),
             wi += len(txt)
             out.extend(txt)
     return "".join(out), [tuple(s) for s in spans]
+
+
+# ----------------------------------------------------------------------------------------
+# feature alphabets (locations as lists of (start, end, strand) in Biopython part order)
+
+def simple_locations(n, strands=(1, -1, None), boundary_only=False):
+    if boundary_only:
+        pts = sorted(set(p for p in (0, 1, 2, n // 2, n - 2, n - 1, n) if 0 <= p <= n))
+    else:
+        pts = list(range(n + 1))
+    out = []
+    for a in pts:
+        for b in pts:
+            if a < b:
+                for s in strands:
+                    out.append([(a, b, s)])
+    return out
+
+
+def join_menu(n):
+    """Two- and three-part locations: adjacent, gapped, origin-spanning (both spellings), mixed strand."""
+    out = []
+    if n >= 4:
+        out += [
+            [(0, 2, 1), (2, 4, 1)],                      # adjacent
+            [(0, 1, 1), (3, 4, 1)],                      # gapped
+            [(3, 4, -1), (0, 1, -1)],                    # gapped, minus strand (biological order)
+            [(n - 2, n, 1), (0, 2, 1)],                  # origin-spanning, join(tail, head)
+            [(0, 2, -1), (n - 2, n, -1)],                # same on the minus strand
+            [(n - 2, n + 2, 1)],                         # origin-spanning, past-the-end coordinates
+            [(n - 1, n + 1, -1)],
+            [(0, 2, 1), (n - 2, n, -1)],                 # mixed strands
+        ]
+    if n >= 6:
+        out += [
+            [(0, 1, 1), (2, 3, 1), (4, 6, 1)],           # three parts
+            [(n - 1, n, 1), (0, 1, 1), (2, 4, 1)],
+        ]
+    return out
+
+
+def whole_length(n):
+    return [("source", [(0, n, 1)]), ("source", [(0, n, None)]), ("misc_feature", [(0, n, 1)]), ("misc_feature", [(0, n, -1)])]
+
+
+def mk_location(parts):
+    locs = [FeatureLocation(a, b, strand=s) for (a, b, s) in parts]
+    return locs[0] if len(locs) == 1 else CompoundLocation(locs)
+
+
+def mk_feature(parts, type="misc_feature", fid="f", qualifiers=None):
+    q = {"label": [fid], "note": ["n-" + fid, "second"]} if qualifiers is None else qualifiers
+    return SeqFeature(mk_location(parts), type=type, id=fid, qualifiers=q)
+
+
+def feature_table(n, boundary_only=False):
+    """-> list of (type, parts) : the full feature alphabet of a record of length n."""
+    tab = [("misc_feature", p) for p in simple_locations(n, boundary_only=boundary_only)]
+    tab += [("CDS", p) for p in join_menu(n)]
+    tab += whole_length(n)
+    return tab
